@@ -51,10 +51,21 @@ def normalise(cmd, result):
     return [result]
 
 
+def fresh(value):
+    if isinstance(value, str):
+        return "".join(list(value)) if value else value
+    if isinstance(value, dict):
+        return dict((fresh(k), fresh(v)) for k, v in value.items())
+    if isinstance(value, (list, tuple)):
+        return [fresh(v) for v in value]
+    return value
+
+
 class DirectFilter(object):
     """GcodeHandlers + ExcludeRegionState configured as _handleSettingsUpdated would."""
 
     def __init__(self, config, regions):
+        config = fresh(config)      # settings arrive from YAML / JSON: equal values, never the source code's own string objects
         logger = env.make_logger(bool(config.get("debug")))
         self.state = ExcludeRegionState(logger)
         self.handlers = GcodeHandlers(self.state, logger)
